@@ -47,7 +47,9 @@ SPEC = {
         "lifecycle:*", "run_process:timeout-ticking-stdout:*", "run_process:timeout-closed-stdout-hangs:*",
         "run_process:timeout-closed-stderr-hangs:*", "run_process:timeout-closed-stdin-hangs:*", "run_process:timeout-ticking-sigterm-ignored:*",
         "run_process:lingering-writer-never-closes:*", "run_process:lingering-writer-2.5s:*", "communicate:lingering-writer-2.5s:*",
-        "communicate:lingering-writer-never-closes:*", "plan:none", "plan:waitpid:settle", "plan:poll:settle", "plan:poll:20ms", "plan:read:*", "plan:write:*",
+        "communicate:lingering-writer-never-closes:*", "communicate:closes-stdout-then-lingers:*",
+        "plan:poll:eintr", "plan:waitpid-blocking:eintr*", "plan:signals:sigalrm-storm", "plan:signals:sibling-sigchld",
+        "eintr:injected:poll", "eintr:injected:waitpid-blocking", "eintr:observed:poll", "eintr:observed:waitpid-blocking", "plan:none", "plan:waitpid:settle", "plan:poll:settle", "plan:poll:20ms", "plan:read:*", "plan:write:*",
         "run_process:check=1:*", "run_process:check=0:stdin=nullptr:*", "monitor:witness-selftest:deadlock-detected",
         "monitor:reaped:ECHILD", "monitor:fds:conserved*", "communicate:stderr=pipe", "communicate:stderr=devnull",
     ],
@@ -56,6 +58,9 @@ SPEC = {
                        "catalogue (38 single-delay plans) is covered across scenarios, not per scenario",
     "assumptions": ASSUME_COMMON + [
         "Linux /proc/<pid>/{syscall,stat,wchan,fd,io} readable for own descendants (checked in this VM)",
+        "EINTR is injected only where a signal can really interrupt the parent: poll() and waitpid() without WNOHANG; read/write on the "
+        "O_NONBLOCK pipes of run_process, communicate's read/write right after poll reported readiness, and waitpid(WNOHANG) never block "
+        "and therefore never fail with EINTR (probe with --arg eintr=all, keys prefixed probe-unrealistic-eintr:, not verdicts)",
         "SIGPIPE is ignored in the harness (any pipe-using program must), so EPIPE is an error return",
         "run_process' last argument is taken in microseconds (the implementation's name; the header calls it timeout_secs)",
         "communicate never reads stderr, so a child filling a stderr pipe is outside its contract: the child's stderr is a pipe only when the script writes <= 16 KiB there, else /dev/null",
